@@ -120,12 +120,12 @@ def parse_units(reg, common):
     A["FFE"] = SCALAR + "|@L|udict:session=@V,authid=@V,authrole=@V"
     A["FF"] = SCALAR + "|ulist:@FFE|@D"
 
-    def unit(cls, options, ensures, extra_inline=(), loops=None):
+    def unit(cls, options, ensures, extra_inline=(), loops=None, more_inline=()):
         A["W" + cls] = SCALAR + "|@L|udict:" + ",".join("%s=%s" % kv for kv in options.items())
         inl = [MSG + ":%s.%s" % (cls, x) for x in ["__init__"] + list(extra_inline)] + [
             MSG + ":Message.__init__", MSG + ":check_or_raise_extra", MSG + ":_validate_kwargs",
             MSG + ":MessageWithForwardFor.forward_for", MSG + ":MessageWithForwardFor.__init__",
-            MSG + ":MessageWithForwardFor._init_forward_for"]
+            MSG + ":MessageWithForwardFor._init_forward_for"] + list(more_inline)
         reg.contract(MSG + ":%s.parse" % cls, params={"wmsg": "ulist:@W" + cls}, returns="any",
                      requires=["len(wmsg) > 0", "type(wmsg[0]) == int and wmsg[0] == %s.MESSAGE_TYPE" % cls],
                      ensures=["isinstance(result, %s)" % cls] + ensures,
@@ -187,6 +187,58 @@ def parse_units(reg, common):
          [ID("request", 1), ID("registration", 2),
           "implies(result.forward_for is not None, len(wmsg) == 4 and 'forward_for' in wmsg[3])", FF_ENS],
          extra_inline=["request", "registration"], loops=FF_LOOP)
+    def ONEOF(f, vals):
+        return " or ".join("result.%s == %r" % (f, v) for v in vals)
+    unit("Register", {"match": "@V", "invoke": "@V", "concurrency": "@V", "force_reregister": "@V", "forward_for": "@FF"},
+         [ID("request", 1),
+          "type(result.procedure) == str and result.procedure == wmsg[3] and "
+          "uri_ok(result.procedure, False, result.match == 'prefix', result.match == 'wildcard')",
+          ONEOF("match", ["exact", "prefix", "wildcard"]), "implies('match' in wmsg[2], result.match == wmsg[2]['match'])",
+          ONEOF("invoke", ["single", "first", "last", "roundrobin", "random"]),
+          "implies('invoke' in wmsg[2], result.invoke == wmsg[2]['invoke'])",
+          "result.concurrency is None or (type(result.concurrency) == int and result.concurrency > 0)",
+          "implies('concurrency' in wmsg[2], result.concurrency == wmsg[2]['concurrency'])",
+          "result.force_reregister is None or type(result.force_reregister) == bool",
+          "implies('force_reregister' in wmsg[2] and wmsg[2]['force_reregister'] is not None, "
+          "result.force_reregister == wmsg[2]['force_reregister'])"] + FF(2),
+         extra_inline=["request", "procedure", "match", "invoke", "concurrency", "force_reregister"], loops=FF_LOOP)
+    # payload transparency attributes: a standard name or "x_" + optionally [a-z][0-9a-z_]+   (WAMP payload passthru mode)
+    lo, dg = z3.Range("a", "z"), z3.Range("0", "9")
+    custom = z3.Concat(_lit("x_"), z3.Option(z3.Concat(lo, z3.Plus(_cls(lo, dg, _lit("_"))))))
+    reg.native_spec("enc_algo_ok", lambda ex, state, x: VBool(z3.InRe(x.t, z3.Union(_lit("cryptobox"), _lit("mqtt"), _lit("xbr"), custom))))
+    reg.native_spec("enc_ser_ok", lambda ex, state, x: VBool(z3.InRe(x.t, z3.Union(
+        _lit("json"), _lit("msgpack"), _lit("cbor"), _lit("ubjson"), _lit("flatbuffers"), custom))))
+    ENC_OPTS = {"enc_algo": "@V", "enc_key": "@V", "enc_serializer": "@V"}
+    ENC_INL = ["args", "kwargs", "payload", "enc_algo", "enc_key", "enc_serializer"]
+    PAYLOAD_INL = [MSG + ":MessageWithAppPayload._init_app_payload", MSG + ":is_valid_enc_algo", MSG + ":is_valid_enc_serializer"] + \
+        [MSG + ":MessageWithAppPayload." + x for x in ENC_INL]
+
+    def PAYLOAD(i):
+        """wmsg[i] is the args / payload position, wmsg[i + 1] the kwargs position"""
+        return ["result.payload is None or type(result.payload) == bytes",
+                "result.args is None or type(result.args) == list",
+                "result.kwargs is None or (type(result.kwargs) == dict and str_keys(result.kwargs))",
+                # a null in the args position is what the library's own marshal() emits for "kwargs but no args": it is
+                # accepted as "no args" (re-marshalled equivalently), anything else must be a list
+                "implies(len(wmsg) > %d and result.payload is None, (wmsg[%d] is None or type(wmsg[%d]) == list) and "
+                "result.args is wmsg[%d])" % (i, i, i, i),
+                "implies(len(wmsg) > %d, result.payload is None and result.kwargs is wmsg[%d])" % (i + 1, i + 1),
+                "implies(result.payload is not None, len(wmsg) == %d and result.payload == wmsg[%d])" % (i + 1, i),
+                "result.enc_algo is None or (type(result.enc_algo) == str and enc_algo_ok(result.enc_algo))",
+                "result.enc_key is None or type(result.enc_key) == str",
+                "result.enc_serializer is None or (type(result.enc_serializer) == str and enc_ser_ok(result.enc_serializer))",
+                "implies(result.payload is None, result.enc_algo is None and result.enc_key is None and "
+                "result.enc_serializer is None)"]
+
+    def SESSION(f, i, key=None):
+        key = key or f
+        return ["result.%s is None or (type(result.%s) == int and id_ok(result.%s))" % (f, f, f),
+                "implies('%s' in wmsg[%d], result.%s == wmsg[%d]['%s'])" % (key, i, f, i, key)]
+    unit("Yield", dict({"progress": "@V", "callee": "@V", "callee_authid": "@V", "callee_authrole": "@V", "forward_for": "@FF"},
+                       **ENC_OPTS),
+         [ID("request", 1)] + PAYLOAD(3) + OPT("progress", 2, "bool") + SESSION("callee", 2) + OPT("callee_authid", 2, "str")
+         + OPT("callee_authrole", 2, "str") + FF(2),
+         extra_inline=["request", "progress", "callee", "callee_authid", "callee_authrole"], loops=FF_LOOP, more_inline=PAYLOAD_INL)
     for cls, f in (("Unsubscribed", "subscription"), ("Unregistered", "registration")):
         unit(cls, {f: "@V", "reason": "@V"},
              [ID("request", 1),
@@ -279,6 +331,13 @@ def id_ok(v):
 
 def str_keys(d):
     return all(type(k) is str for k in d)
+
+import re as _re
+def enc_algo_ok(x):
+    return x in ("cryptobox", "mqtt", "xbr") or bool(_re.fullmatch(r"x_([a-z][0-9a-z_]+)?", x))
+
+def enc_ser_ok(x):
+    return x in ("json", "msgpack", "cbor", "ubjson", "flatbuffers") or bool(_re.fullmatch(r"x_([a-z][0-9a-z_]+)?", x))
 
 def build(x):
     if isinstance(x, list):
